@@ -286,10 +286,10 @@ def oracle_fails(run, prefixes, require_contract=True, o1_needs_contract=True):
             continue
         for f in orc["fails"]:
             # reachability (O1) and completeness (O3) are only meaningful under the adoption contract
-            need = require_contract or (o1_needs_contract and (f.startswith("O1") or f.startswith("O3")))
+            need = require_contract or (o1_needs_contract and f.split(":")[0] in ("O1", "O3"))
             if need and orc.get("contract") != "1":
                 continue
-            if any(f.startswith(p) for p in prefixes):
+            if any(f.split(":")[0] == p for p in prefixes):
                 out.append((i, f))
         if out:
             break
